@@ -160,3 +160,7 @@ def cur(x):
                     if id(o) == oid:
                         return o
     return x
+
+
+def is_str_value(x):
+    return isinstance(x, str)
